@@ -139,6 +139,14 @@ func sensitivity(names []string) int {
 				if lines[i] == "" {
 					lines[i] = fmt.Sprintf("sensitivity %-44s (no result) %s", name, tail(string(b), 300))
 				}
+				if strings.Contains(lines[i], " exit2") {
+					// keep the reason: the driver's own messages of that run
+					for _, l := range strings.Split(string(b), "\n") {
+						if strings.HasPrefix(l, "verifctl:") || strings.HasPrefix(l, "rewrite:") {
+							lines[i] += "\n    " + l
+						}
+					}
+				}
 				fmt.Println(lines[i])
 			}(i, name)
 		}
